@@ -387,7 +387,9 @@ json.dump([[p, f, w] for (p, f), w in seen.items()], sys.stdout)
 '''
 
 
-def p4_regex_ambiguity(chk):
+def p4_regex_ambiguity(chk, only=None):
+    """only: predicate on the source location 'pkg/module.py:line' selecting the patterns to analyse (C03 takes the
+    expander's: parser/templ/)"""
     import json
     import os
     import re
@@ -401,6 +403,8 @@ def p4_regex_ambiguity(chk):
         chk.crashes.append("regex recorder failed: " + out.stderr[-400:])
         return
     pats = json.loads(out.stdout)
+    if only is not None:
+        pats = [x for x in pats if only(x[2])]
     n_ok, cands = 0, []
     for pattern, flags, where in sorted(pats, key=lambda x: x[2]):
         name = f"regex.no_exponential_ambiguity[{where}]"
